@@ -125,6 +125,18 @@ func isTypeName(o types.Object) bool {
 	return !instr
 }
 
+// member looks a name up in an imported package; unsafe.Pointer comes from go/types' unsafe
+// package (the builder's own unsafe package only holds the unsafe functions).
+func (d *Driver) member(path, name string) types.Object {
+	if o := d.pkgRef(path).TryRef(name); o != nil {
+		return o
+	}
+	if path == "unsafe" {
+		return types.Unsafe.Scope().Lookup(name)
+	}
+	return nil
+}
+
 func unparen(e ast.Expr) ast.Expr {
 	for {
 		p, ok := e.(*ast.ParenExpr)
@@ -149,7 +161,7 @@ func (d *Driver) IsType(e ast.Expr) bool {
 	case *ast.SelectorExpr:
 		if id, ok := t.X.(*ast.Ident); ok {
 			if path, ok := d.importOf(id); ok {
-				_, isT := d.pkgRef(path).TryRef(t.Sel.Name).(*types.TypeName)
+				_, isT := d.member(path, t.Sel.Name).(*types.TypeName)
 				return isT
 			}
 		}
@@ -229,7 +241,7 @@ func (d *Driver) Typ(e ast.Expr) types.Type {
 	case *ast.SelectorExpr:
 		if id, ok := t.X.(*ast.Ident); ok {
 			if path, ok := d.importOf(id); ok {
-				if tn, ok := d.pkgRef(path).TryRef(t.Sel.Name).(*types.TypeName); ok {
+				if tn, ok := d.member(path, t.Sel.Name).(*types.TypeName); ok {
 					return tn.Type()
 				}
 			}
@@ -462,7 +474,7 @@ func (d *Driver) expr0(e ast.Expr, lhs int) {
 	case *ast.SelectorExpr:
 		if id, ok := v.X.(*ast.Ident); ok {
 			if path, ok := d.importOf(id); ok {
-				o := d.pkgRef(path).TryRef(v.Sel.Name)
+				o := d.member(path, v.Sel.Name)
 				if o == nil {
 					panic(fmt.Errorf("undefined: %s.%s", id.Name, v.Sel.Name))
 				}
@@ -743,7 +755,7 @@ func (d *Driver) ref(e ast.Expr) {
 	case *ast.SelectorExpr:
 		if id, ok := v.X.(*ast.Ident); ok {
 			if path, ok := d.importOf(id); ok {
-				o := d.pkgRef(path).TryRef(v.Sel.Name)
+				o := d.member(path, v.Sel.Name)
 				if o == nil {
 					panic(fmt.Errorf("undefined: %s.%s", id.Name, v.Sel.Name))
 				}
